@@ -130,7 +130,9 @@ HookCall(w, call) ==
       lim == "limited" \in DOMAIN call /\ call.limited
       \* the voucher the IBC module credits: the staked asset unless the operator sent something else
       den == IF "den" \in DOMAIN call THEN call.den ELSE HookDenom
-      inner == [m |-> call.inner, s |-> h, funds |-> <<<<den, call.amt>>>>, b |-> call.b]
+      \* (the chain may refuse the transfers the handler submits: `ibc_fail` travels with the delivery)
+      inner == [m |-> call.inner, s |-> h, funds |-> <<<<den, call.amt>>>>, b |-> call.b,
+                ibc_fail |-> IF "ibc_fail" \in DOMAIN call THEN call.ibc_fail ELSE << >>]
       w0 == [w EXCEPT !.bank = Credit(@, h, den, call.amt)]
       r == ExecContract(w0, inner)
       exact == call.inner # "receive_unstaked_tokens" \/ call.amt = w.c.batches[call.b].expected
@@ -303,6 +305,9 @@ Act_C11(w, w1, msgs) ==
        /\ (w1.c.N - w.c.N) + (w1.c.fees - w.c.fees) + paid = a
        /\ (w.c.cfg.treasury # "" => w1.c.fees = w.c.fees)
        /\ (w.c.cfg.treasury = "" => paid = 0)
+       \* "restaked": what was added to the staked total really left for the staker in this transaction
+       /\ (w1.c.N > w.c.N => \E i \in DOMAIN msgs : msgs[i].k = "ibc" /\ msgs[i].den = w.c.cfg.natDen
+                                                   /\ msgs[i].rcv = w.c.cfg.staker /\ msgs[i].amt = w1.c.N - w.c.N)
 
 \* C11: fee bookkeeping is never negative
 Inv_C11(w) == w.c.fees >= 0 /\ w.c.rewards >= 0
